@@ -31,7 +31,7 @@
     c16.prog cond ;; id=row … ;; prog  a program around OPENs of cursors FOR a prepared statement `SELECT … FROM t WHERE cond`
                                       (`CursorStmt.runP`, started with NO surrounding frame); cond in prefix form: gt H | lt H |
                                       gtc n | and C C, H = ?k | :name; the rows of t now with their ids; prog: items
-                                      `O N v[@name] … ;` (OPEN N [USING v [AS name], …]) | `A stmt ;` (a statement as above) |
+                                      `O N v[@name] … ;` (OPEN N [USING v [AS name], …]; v = n | ?k | :name | ?k+n | :name+n) | `A stmt ;` (a statement as above) |
                                       `X v[@name] … { prog }` (EXECUTE p USING …, p's statements in braces) |
                                       `F { prog }` (a statement calling a function with this body) | `S { prog }` (SOURCE)
                                       → trace `res | res | …` up to and including the first error (E13803: replace value not specified)
@@ -227,10 +227,25 @@ partial def parseCond : List String → Option (Cond × List String)
   | _ => none
 
 open Csvq.CursorStmt in
+/-- a USING item: `5`, `?1`, `:lo`, `?1+3`, `:lo+3` -/
+def parseVExpr (t : String) : Option VExpr :=
+  let atom (a : String) : Option VExpr :=
+    match parseHolder a with
+    | some h => some (VExpr.ph h)
+    | none => a.toInt?.map VExpr.lit
+  match t.splitOn "+" with
+  | [a] => atom a
+  | [a, k] =>
+    match atom a, k.toInt? with
+    | some e, some k => some (VExpr.plus e k)
+    | _, _ => none
+  | _ => none
+
+open Csvq.CursorStmt in
 def parseRV (t : String) : Option RV :=
   match t.splitOn "@" with
-  | [v] => v.toInt?.map fun v => ⟨v, ""⟩
-  | [v, n] => v.toInt?.map fun v => ⟨v, n⟩
+  | [v] => (parseVExpr v).map fun v => ⟨v, ""⟩
+  | [v, n] => (parseVExpr v).map fun v => ⟨v, n⟩
   | _ => none
 
 open Csvq.CursorStmt in
@@ -275,7 +290,7 @@ def progCmd (s : Scope String) (args : List String) : Option (Scope String × St
   | [cond, rows, prog] =>
     match parseCond cond, rows.mapM parseRow, (fun c => parseProg c prog) <$> (parseCond cond).map (·.1) with
     | some (_, []), some table, some (some (p, [])) =>
-      let r := runP table [] [s] p
+      let r := runP table Ctx.empty [s] p
       some (r.1.headD [], String.intercalate " | " (r.2.1.map showORes))
     | _, _, _ => none
   | _ => none
